@@ -96,6 +96,7 @@ pub fn run_campaign(c: &Campaign, seed: u64, tag: &str) -> Outcome {
     let root = e1::scratch_root().join(tag);
     let _ = std::fs::create_dir_all(&root);
     let total = c.histories * c.variants;
+    let claimed = AtomicUsize::new(0);
     let agg = Mutex::new(Outcome {
         stats: Stats::default(),
         evaluations: 0,
@@ -155,7 +156,7 @@ pub fn run_campaign(c: &Campaign, seed: u64, tag: &str) -> Outcome {
             }));
         }
         if let Some(violation) = viol {
-            if a.failures.len() < 8 {
+            if claimed.fetch_add(1, Ordering::SeqCst) < 6 {
                 drop(a);
                 // minimise outside the lock
                 let mut st = steps.clone();
